@@ -16,8 +16,9 @@ def SVRes {α β : Type} (R : α → β → Prop) (r : Res α) (j : β) : Prop :
   | .fail => False
   | .fuelOut => True
 
-/-- forcing a closure yields a value related to what the algorithm's in-place forcing yields — and never escapes -/
-theorem force_sv (hw : flatWorld c.world = true) (hac : Acyclic c.frags rank) (hfr : FragsOK c pv) (cl : Closure) (j : JVal)
+/-- ONE call of a closure yields a value related to what the algorithm's in-place forcing yields (possibly another closure) — and
+never escapes -/
+theorem force_sv (hac : Acyclic c.frags rank) (hfr : FragsOK c pv) (cl : Closure) (j : JVal)
     (hwit : Wit c pv rank F cl j) (mst : MSt) :
     SVRes (SV c pv rank F) (force c alt0 F cl mst).1 j := by
   obtain ⟨hn, hr⟩ := hwit
@@ -40,14 +41,14 @@ theorem force_sv (hw : flatWorld c.world = true) (hac : Acyclic c.frags rank) (h
     | ok v =>
       rw [hcr] at hr
       simp only at hr
-      obtain ⟨hv, hfo, fname, st, rS, stS, hS, hkf, hres⟩ := hr
+      obtain ⟨fname, st, rS, stS, hS, hkf, hres⟩ := hr
       simp only
       have hne : rS ≠ .fuelOut := by
         rcases hres with h | h
         · rw [h]; simp
         · rw [h.1]; simp
-      have hc := (genP (F := F) hw hac hfr F (Nat.le_refl _)).complete true cl.t cl.rt fname cl.fid cl.fp cl.path v st
-        (mst.logEv (.force cl.path)) rS stS hn hv hS hne hkf
+      have hc := (genP (F := F) hac hfr F (Nat.le_refl _)).complete true cl.t cl.rt fname cl.fid cl.fp cl.path v st
+        (mst.logEv (.force cl.path)) rS stS hn hS hne hkf
       generalize mComplete c alt0 F true cl.t cl.rt cl.fid cl.fp cl.path v (mst.logEv (.force cl.path)) = z at hc ⊢
       obtain ⟨rM, mst1⟩ := z
       rcases hres with rfl | ⟨rfl, hnn, rfl⟩
@@ -56,19 +57,39 @@ theorem force_sv (hw : flatWorld c.world = true) (hac : Acyclic c.frags rank) (h
         subst hx
         exact hsv
       · simp only [CompleteRel] at hc
-        rcases hc with hc | ⟨_, _, hne', _, _⟩
+        rcases hc with hc | ⟨cl', hcl', _, _, hwit'⟩
         · subst hc
           simp only [hnn, Bool.false_eq_true, if_false]
           exact .leaf _
-        · exact absurd hfo hne'
+        · subst hcl'
+          exact .deferred hwit'
 
 /-- a forcing function that respects `SV` -/
 def FrcSV (c : Ctx) (pv : Option Vars) (rank : String → Nat) (F : Nat) (frc : Closure → MSt → Res PVal × MSt) : Prop :=
   ∀ cl j mst, Wit c pv rank F cl j → SVRes (SV c pv rank F) (frc cl mst).1 j
 
-theorem frcSV_force (hw : flatWorld c.world = true) (hac : Acyclic c.frags rank) (hfr : FragsOK c pv) :
-    FrcSV c pv rank F (force c alt0 F) :=
-  fun cl j mst hwit => force_sv hw hac hfr cl j hwit mst
+/-- the loop at a dethunk site keeps the relation -/
+theorem forceLoop_sv {frc : Closure → MSt → Res PVal × MSt} (hf : FrcSV c pv rank F frc) (j : JVal) :
+    ∀ (n : Nat) (v : PVal) (mst : MSt), SV c pv rank F v j → SVRes (SV c pv rank F) (forceLoop frc n v mst).1 j
+  | 0, v, mst, _ => by simp only [forceLoop]; trivial
+  | n + 1, .leaf _, mst, h => by simp only [forceLoop]; exact h
+  | n + 1, .list _, mst, h => by simp only [forceLoop]; exact h
+  | n + 1, .obj _, mst, h => by simp only [forceLoop]; exact h
+  | n + 1, .deferred cl, mst, h => by
+    simp only [forceLoop]
+    cases h with
+    | deferred hwit =>
+      have ha := hf cl j mst hwit
+      generalize frc cl mst = z at ha ⊢
+      obtain ⟨r1, mst1⟩ := z
+      cases r1 with
+      | ok x => exact forceLoop_sv hf j n x mst1 ha
+      | fail => exact ha
+      | fuelOut => trivial
+
+theorem frcSV_forceAll (hac : Acyclic c.frags rank) (hfr : FragsOK c pv) :
+    FrcSV c pv rank F (forceAll c alt0 F) :=
+  fun cl j mst hwit => forceLoop_sv (fun cl j mst hw => force_sv hac hfr cl j hw mst) j F (.deferred cl) mst (.deferred hwit)
 
 /-- `m[k] = v'` keeps the relation when `v'` stands for whatever the old value stood for -/
 theorem svf_setF {k : String} {v v' : PVal} (hvv : ∀ j, SV c pv rank F v j → SV c pv rank F v' j) :
